@@ -305,6 +305,8 @@ class GenCfg:
         self.max_fields = rng.randint(2, 7)
         self.p_ext_msg = rng.choice([0.0, 0.3, 0.6, 0.9]) if not fleet else rng.choice([0.5, 0.7, 0.9])
         self.p_ext_arr = rng.choice([0.0, 0.3, 0.6]) if not fleet else rng.choice([0.4, 0.6, 0.9])
+        if not fleet and rng.chance(0.35):
+            self.p_ext_msg = self.p_ext_arr = 0.0  # a traditional schema: eligible for optimization mode (-O)
         self.p_array = rng.choice([0.15, 0.3, 0.5])
         self.p_nested_decl = rng.choice([0.0, 0.3, 0.6])
         self.max_cap = rng.choice([3, 5, 9, 17])
